@@ -19,7 +19,7 @@ TEXT = {
             "inv/div/exp compared with the oracle on directed (Fibonacci, floor(p/k), 2^k+-1, aliases) and random operands; refusal of zero "
             "divisors observed in forked children; non-termination would surface as a per-case watchdog violation.",
             "u128 oracle; watchdog firing once is inconclusive, twice (alone, fresh process) a violation"),
-    "C15": ("fieldops", "GMP floor-mod oracle over conversion boundaries, all radices 2..36, int32 exhaustive in thorough",
+    "C15": ("fieldops", "GMP floor-mod oracle over conversion boundaries, all radices 2..36, the same literal in consecutive radices, plain-thread concurrent callers, int32 exhaustive in thorough",
             "All conversion entry points compared with GMP floor-mod semantics on boundary neighbourhoods, every int32 (thorough), "
             "big integers of both signs as strings and mpz; predicates on representation pairs.",
             "GMP string parsing/printing is trusted as the reference for radix conversion"),
@@ -33,9 +33,9 @@ TEXT.update({
     "C11": ("vecops", "per-lane differential oracle (8 lanes) on the AVX-512 build the shipped tests never compile",
             "Same monitor as C02 for the 13 AVX-512 kernels, built with -mavx512f -D__AVX512__ and executed on this CPU's AVX-512F.",
             "u128 oracle; requires an AVX-512F CPU (otherwise inconclusive); valgrind cannot run AVX-512 so memory side is ASan only"),
-    "C13": ("vecops", "integer matrix-vector oracle, band-directed operands (lane products constructed to land in [p,2^64))",
-            "dot/spmv/mmult AVX2 kernels (aligned, unaligned at offsets 0..3, 8-bit variants) compared with the matrix oracle on five operand "
-            "families; the number of non-canonical intermediate products actually produced is measured by probing the lane kernels.",
+    "C13": ("vecops", "integer matrix-vector oracle, band-directed operands (lane products constructed to land in [p,2^64)), aliased result registers, changed matrix at the same address, plain-thread concurrent callers",
+            "dot/spmv/mmult AVX2 kernels (aligned, unaligned at offsets 0..3, 8-bit variants) compared with the matrix oracle on seven operand "
+            "families (incl. coefficients below 2^32 and 8-bit low words with a high word set), with the result register being a state register, and a second time with the matrix changed in place; the number of non-canonical intermediate products actually produced is measured by probing the lane kernels.",
             "u128 oracle; documented layouts (row-major 12x12, block-diagonal 4x12)"),
     "C14": ("vecops", "integer matrix-vector oracle per interleaved state, band-directed operands, AVX-512 build",
             "Same monitor as C13 for the AVX-512 two-state kernels; found the non-canonical-addend defect (F1) on the pinned tree, fixed in "
@@ -44,12 +44,12 @@ TEXT.update({
 })
 
 TEXT.update({
-    "C16": ("wrappers", "generated thunk per declared overload, schoolbook cubic oracle per element, sentinel arenas (stray write / stray read), header re-parse against committed table",
+    "C16": ("wrappers", "generated thunk per declared overload (plus in-place register-triple forms), schoolbook cubic oracle per element, sentinel arenas (stray write / stray read), sparse mappings for strides of 2^28..2^30 elements, header re-parse against committed table",
             "All 159 batched/AVX2/AVX-512 cubic-extension overloads parsed from the current header are called through exact-signature thunks with operands "
             "placed by strides / index arrays in sentinel arenas; every designated coefficient compared with the scalar oracle, every other cell must be untouched, "
             "a second call with another sentinel must give identical bits; prod/prod512/asan/asan512 builds. A changed overload set makes the run inconclusive.",
             "expected behaviour is the naming convention of the header (digits = operand kinds, c = constant), not any single definition; stray reads that stay inside the arena and do not change results are invisible"),
-    "C17": ("wrappers", "generated thunk per declared overload, u128 oracle per lane, sentinel arenas, guard-page/framed buffers for parcpy/parSetZero",
+    "C17": ("wrappers", "generated thunk per declared overload, u128 oracle per lane, sentinel arenas, exact-extent inputs before an unmapped page, sparse mappings for strides of 2^28..2^30 elements, guard-page/framed buffers for parcpy/parSetZero",
             "All 160 defined copy/add/sub/mul _batch/_avx/_avx512 overloads (table re-derived from the header at check time; the one declared-but-undefined overload is link-probed) "
             "executed with strided / indexed / broadcast / register operands in sentinel arenas; parcpy/parSetZero over the size x thread-argument grid (INT_MIN, -1, 0 included) in guard-page buffers.",
             "family convention from parameter names is the specification; overlapping result positions excluded; libgomp team sizes capped at 1024"),
@@ -81,13 +81,14 @@ TEXT.update({
 })
 
 TEXT.update({
-    "C06": ("poseidon", "reference permutation from the spec over the oracle field, inverse-constructed boundary states, interleaved-pair swapping, constant-table monitor",
+    "C06": ("poseidon", "reference permutation over the oracle field, states constructed by inverting the whole permutation (chosen product residues in front of the linear step of any of its 30 stages), chained in-place calls, plain-thread concurrent callers, interleaved-pair swapping, constant-table monitor",
             "Scalar, AVX2 and AVX-512 (both lanes of a pair) full-result permutation and capacity hash compared with an independent reference on 8*10^5 (quick) / 6*10^7 (thorough) "
-            "states per build, including states solved backwards so that chosen boundary vectors reach the linear layers; exposes the AVX-512 column-sum defect (F1) when it is reverted.",
+            "states per build, including states solved backwards (7th roots, inverse MDS / P / sparse partial-round matrices) so that chosen boundary vectors and chosen coefficient*state products "
+            "(residues below 2^32, next to p) reach the linear step of every stage; perm^k chains in place; 8 plain threads on their own states; exposes the AVX-512 column-sum defect (F1) when it is reverted.",
             "spec = reference-form Poseidon with the library's tables; tables pinned by hash; oracle validated by published known answers"),
-    "C07": ("poseidon", "reference sponge for every input length 0..264 (+long), guard-page inputs and sentinel-framed digests",
+    "C07": ("poseidon", "reference sponge for every input length 0..264 (+long, one beyond 2^24 elements), guard-page inputs and sentinel-framed digests, plain-thread concurrent callers",
             "All three variants compared with the reference sponge for every length, both sides of the <=4 pass-through threshold and every residue mod 8; reads beyond "
-            "the declared length fault on the guard page (or ASan), writes beyond the digest hit the sentinel frame.",
+            "the declared length fault on the guard page (or ASan), writes beyond the digest hit the sentinel frame; one input of 2^24+1 elements (second oracle arithmetic, cross-checked); 8 plain threads hashing at once.",
             "as C06"),
     "C08": ("poseidon", "reference tree, whole-buffer comparison, exact-size guard-page tree and input buffers, all eight builders",
             "Every element of the tree buffer compared with a reference binary Poseidon tree for ~4*10^3 (quick) / ~5*10^4 (thorough) shapes incl. one row, zero columns, "
@@ -104,9 +105,10 @@ TEXT.update({
 })
 
 TEXT.update({
-    "C12": ("races", "ThreadSanitizer over a pthread OpenMP stand-in (fork/join visible), all k! sequential member orders for teams <= 4, libgomp team sweep, bit-identity with the single-thread result",
+    "C12": ("races", "ThreadSanitizer over a pthread OpenMP stand-in (fork/join visible), all k! sequential member orders for teams <= 4, libgomp team sweep (also thread-limited and time-sliced on 2 CPUs), cold-start first use by a team, bit-identity with the single-thread result",
             "Every parallel region of the transforms, Merkle builders and copy helpers is executed under TSan with 7 team sizes (fewer, equal, more members than iterations) and "
-            "seeded start-up delays; the same workloads run with permuted sequential member orders and on real libgomp and must reproduce the single-thread output bit for bit.",
+            "seeded start-up delays; the same workloads run with permuted sequential member orders, with teams delivered smaller than requested and on real libgomp and must reproduce the single-thread output bit for bit; "
+            "the first library use of every process is a team of 8 on a rotating entry point (lazily prepared state).",
             "TSan happens-before analysis on the executed regions; schedules of regions never entered are not covered"),
 })
 
